@@ -62,6 +62,8 @@ func main() {
 		code = scenarioMultiListen()
 	case "multistamp":
 		code = scenarioMultiStamp()
+	case "pinfault":
+		code = scenarioPinFault()
 	case "concurrent":
 		code = scenarioConcurrent()
 	case "pintime":
